@@ -26,6 +26,20 @@
 (* blocked in I/O (handler steps take no time at this granularity), so a   *)
 (* read blocked at its deadline returns AT the deadline.                   *)
 (*                                                                         *)
+(* Configurations (one per property family):                               *)
+(*   MC_TcpConn_C02 / C02Thorough   relay, <=3 / <=6 chunks each way        *)
+(*   MC_TcpConn_C02Live, C02Indep   liveness; half-close independence      *)
+(*   MC_TcpConn_C06 / C06Thorough   probes with clock, invalid streams     *)
+(*   MC_TcpConn_C06Inner            tcp.go:305-308 as it was written:      *)
+(*                                  NEGATIVE control, TLC must refute it   *)
+(*   MC_TcpConn_C06Live             every handler path terminates          *)
+(*   MC_TcpConn_C15 / C15Thorough   every outcome class                    *)
+(*   MC_TcpConn_C18, C18One, C18Live1, C18Live   2 connections, listener   *)
+(*                                  shutdown, isolation, termination       *)
+(*   Gen_TcpConn_*                  behaviour generation (TcpConnGen.tla)  *)
+(*   TcpConnTrace / TcpConnTraceM   records of the real code: property     *)
+(*                                  layer (verdict) / mechanism (drift)    *)
+(*                                                                         *)
 (* Property layer (C02, C06, C15, C18): predicates over the scenario (what *)
 (* the peers sent: hs, tk, csent, tsent, cfin...) and the observations     *)
 (* ob[c] (what client, target, dialer and metrics saw) only.               *)
@@ -87,6 +101,8 @@ InitConn(h, k) ==
 InitOb ==
   [ csent |-> <<>>, tsent |-> 0, tlog |-> <<>>, clog |-> <<>>, mlog |-> <<>>, dials |-> 0,
     acceptAt |-> -1, closeAt |-> -1, cfinAt |-> -1, preDoneAt |-> -1, addrDoneAt |-> -1, lastSendAt |-> -1,
+    cancelled |-> FALSE,      \* the listener was closed before this connection's dial was seen (its context is cancelled)
+    handlerDone |-> FALSE,    \* the handler goroutine of an accepted connection has returned
     stalls |-> {},            \* (records of the real code only) observations the harness waited for in vain
     tfinPolite |-> FALSE,     \* the target sent its FIN only after it had seen the proxy's FIN
     drain |-> "",             \* how the probe drain ended
@@ -137,11 +153,12 @@ Connect(c) == /\ st[c].pc = "idle" /\ lst = "open"
               /\ Step(c, [st[c] EXCEPT !.pc = "backlog", !.csock = "open"], ob[c], "Connect", 0)
 
 ClientSend(c, tok) ==
-  /\ st[c].pc \notin {"idle", "reset"} /\ st[c].csock = "open" /\ ~st[c].cfin
+  /\ st[c].pc \notin {"idle", "reset"} /\ ~st[c].cfin
   /\ EnvOK(c)
   /\ Len(ob[c].csent) < MaxTok /\ tok \in NextToks(c)
   /\ LET o == ob[c] IN
-     Step(c, [st[c] EXCEPT !.cq = Append(@, tok)],
+     \* a client may still write after the proxy has closed its side: those bytes go nowhere
+     Step(c, IF st[c].csock = "open" THEN [st[c] EXCEPT !.cq = Append(@, tok)] ELSE st[c],
           [o EXCEPT !.csent = Append(@, tok),
                     !.wire.cs = @ + W(tok),
                     !.lastSendAt = now,
@@ -150,7 +167,7 @@ ClientSend(c, tok) ==
           "CSend", KindCode(tok.k) * 10 + tok.v)
 
 ClientFin(c) ==
-  /\ st[c].pc \notin {"idle", "reset"} /\ st[c].csock = "open" /\ ~st[c].cfin
+  /\ st[c].pc \notin {"idle", "reset"} /\ ~st[c].cfin
   /\ EnvOK(c)
   /\ Step(c, [st[c] EXCEPT !.cfin = TRUE], [ob[c] EXCEPT !.cfinAt = now], "CFin", 0)
 
@@ -172,8 +189,9 @@ CloseListener ==
   /\ lst' = "closed"
   \* connections still in the kernel backlog are reset by the kernel, no handler ever sees them
   /\ st' = [c \in Conns |-> IF st[c].pc = "backlog" THEN [st[c] EXCEPT !.pc = "reset", !.csock = "closed"] ELSE st[c]]
+  /\ ob' = [c \in Conns |-> IF ob[c].dials = 0 THEN [ob[c] EXCEPT !.cancelled = TRUE] ELSE ob[c]]
   /\ tr' = Log(Ev("CloseListener", 0, 0))
-  /\ UNCHANGED <<ob, now, srv>>
+  /\ UNCHANGED <<now, srv>>
 
 (* ------------------------------------------------------------------------ *)
 (* StreamServe  tcp.go:231-258                                              *)
@@ -278,7 +296,9 @@ DrainRawEof(c) ==
 Dial(c) ==
   /\ st[c].pc = "dial"
   /\ LET o == [ob[c] EXCEPT !.dials = @ + 1] IN
-     CASE st[c].tk = "ok"     -> Step(c, [st[c] EXCEPT !.tgt = "up", !.pa = "copy", !.pc = "t2c"], o, "Dial", 1)
+     \* :235 StreamServe cancels the handlers' context when the listener is closed: a dial after that fails
+     CASE srv \in {"wait", "ret"} /\ st[c].tk # "deny" -> Step(c, Fail(st[c], "ERR_CONNECT", "closing"), o, "Dial", 0)
+       [] st[c].tk = "ok"     -> Step(c, [st[c] EXCEPT !.tgt = "up", !.pa = "copy", !.pc = "t2c"], o, "Dial", 1)
        [] st[c].tk = "refuse" -> Step(c, Fail(st[c], "ERR_CONNECT", "closing"), o, "Dial", 0)
        [] st[c].tk = "deny"   -> Step(c, Fail(st[c], "ERR_ADDRESS", "closing"), ob[c], "DialDenied", 0)
 
@@ -372,7 +392,7 @@ Close(c) ==
 \* :248-249 deferred clientConn.Close(), running.Done()
 HandlerDone(c) ==
   /\ st[c].pc = "exit"
-  /\ Step(c, [st[c] EXCEPT !.pc = "done"], ob[c], "HandlerDone", 0)
+  /\ Step(c, [st[c] EXCEPT !.pc = "done"], [ob[c] EXCEPT !.handlerDone = TRUE], "HandlerDone", 0)
 
 (* ------------------------------------------------------------------------ *)
 (* clock                                                                    *)
@@ -459,7 +479,7 @@ AddrSent(o)    == o.addrDoneAt # -1 /\ o.addrDoneAt < DeadlineOf(o) - SlackSched
 AddrMissing(o) == (o.addrDoneAt = -1 /\ Reported(o)) \/ (o.addrDoneAt # -1 /\ o.addrDoneAt > DeadlineOf(o) + SlackSched)
 \* a connection on which nothing went wrong: valid fresh opener and valid address in time, reachable target, no
 \* corrupt chunk, no reset
-Clean(s, o) == MustAuth(s, o) /\ AddrSent(o) /\ s.tk = "ok" /\ ~OHasBad(o) /\ ~s.trst
+Clean(s, o) == MustAuth(s, o) /\ AddrSent(o) /\ s.tk = "ok" /\ ~OHasBad(o) /\ ~s.trst /\ ~o.cancelled
 
 (* ---- C02 --------------------------------------------------------------- *)
 \* no loss, duplication, reordering, invention - on every connection, clean or not
@@ -500,7 +520,7 @@ C06_NormalClose(s, o) ==
 \* after authentication an invalid stream is drained: while the client keeps its side open the proxy neither closes,
 \* nor half-closes towards the target, nor (unless the target ended the stream on its own) towards the client
 C06_DrainHolds(s, o) ==
-  MustAuth(s, o) /\ OHasBad(o) /\ ~s.cfin /\ s.tk = "ok" /\ ~s.trst =>
+  MustAuth(s, o) /\ OHasBad(o) /\ ~s.cfin /\ s.tk = "ok" /\ ~s.trst /\ ~o.cancelled =>
      /\ ~Reported(o)
      /\ ~Has(o.tlog, 0)
      /\ ~Has(o.clog, -1)
@@ -514,6 +534,8 @@ C15_Language(s, o) ==
     /\ MCount(o, "Open") <= 1 /\ MCount(o, "Auth") <= 1 /\ MCount(o, "Probe") <= 1 /\ MCount(o, "Closed") <= 1
     /\ (Reported(o) => m[Len(m)].m = "Closed")
     /\ ~(MCount(o, "Auth") = 1 /\ MCount(o, "Probe") = 1)
+\* every accepted connection is reported opened once and closed once by the time its handler has returned
+C15_ReportedOnce(s, o) == o.handlerDone => MCount(o, "Open") = 1 /\ MCount(o, "Closed") = 1
 C15_AuthOnlyIfAuthenticated(s, o) == MCount(o, "Auth") = 1 => MayAuth(s, o)
 C15_ProbeIffFailed(s, o) ==
   Reported(o) =>
@@ -537,6 +559,7 @@ ExpectedStatus(s, o) ==
   ELSE IF ~AddrSent(o) THEN {"ERR_READ_ADDRESS", "ERR_ADDRESS", "ERR_CONNECT", "ERR_RELAY_CLIENT", "ERR_RELAY_TARGET", "OK"}
   ELSE IF s.tk = "deny" THEN {"ERR_ADDRESS"}
   ELSE IF s.tk = "refuse" THEN {"ERR_CONNECT"}
+  ELSE IF o.cancelled THEN {"ERR_CONNECT", "ERR_RELAY_CLIENT", "ERR_RELAY_TARGET", "OK"}
   ELSE IF OHasBad(o) THEN {"ERR_RELAY_CLIENT"}
   ELSE IF s.trst THEN {"ERR_RELAY_CLIENT", "ERR_RELAY_TARGET"}
   ELSE {"OK"}
@@ -545,14 +568,21 @@ C15_OkIffComplete(s, o) == Reported(o) /\ Clean(s, o) => ClosedRec(o).s = "OK"
 C15_Counters(s, o) ==
   Reported(o) =>
      LET n == ClosedRec(o).n  w == o.wire IN
-     /\ n[1] <= w.cs /\ n[2] <= w.tr /\ n[3] <= w.ts /\ n[4] <= w.cr
+     \* received-from counters never exceed what the peer wrote; sent-to counters never exceed what the peer received,
+     \* unless that peer reset the connection (bytes accepted by the kernel may be dropped unread)
+     /\ n[1] <= w.cs /\ n[3] <= w.ts
+     /\ (~s.trst => n[2] <= w.tr) /\ (~Has(o.clog, -1) => n[4] <= w.cr)
      /\ (ClosedRec(o).s = "OK" => n[1] = w.cs /\ n[2] = w.tr /\ n[3] = w.ts /\ n[4] = w.cr)
+
+(* ---- C18 (per connection) ------------------------------------------------ *)
+\* when everything has come to rest, the handler of every accepted connection has returned
+C18_HandlerReturned(s, o) == o.acceptAt # -1 => o.handlerDone
 
 \* families, as evaluated on records of the real code.  "Any" may be evaluated at any moment of a run (monotone in the
 \* observers' logs); "Final" only when the run is over and every observer has read to the end of its stream.
 PropsAny == {"C02_TargetPrefix", "C02_ClientPrefix", "C02_Propagates", "C02_FinToTargetAfterAll", "C02_FinToClientAfterAll",
              "C06_Silent", "C06_NoEarlyClose", "C06_DrainHolds", "C15_Language", "C15_AuthOnlyIfAuthenticated"}
-PropsFinal == PropsAny \cup {"C02_CompleteAtClose", "C06_CloseNotEarly", "C06_CloseNotLate", "C06_NormalClose",
+PropsFinal == PropsAny \cup {"C18_HandlerReturned", "C15_ReportedOnce", "C02_CompleteAtClose", "C06_CloseNotEarly", "C06_CloseNotLate", "C06_NormalClose",
                              "C15_ProbeIffFailed", "C15_ProbeBytes", "C15_Status", "C15_OkIffComplete", "C15_Counters"}
 Holds(p, s, o) ==
   CASE p = "C02_TargetPrefix" -> C02_TargetPrefix(s, o)
@@ -568,6 +598,8 @@ Holds(p, s, o) ==
     [] p = "C06_NormalClose" -> C06_NormalClose(s, o)
     [] p = "C06_DrainHolds" -> C06_DrainHolds(s, o)
     [] p = "C15_Language" -> C15_Language(s, o)
+    [] p = "C18_HandlerReturned" -> C18_HandlerReturned(s, o)
+    [] p = "C15_ReportedOnce" -> C15_ReportedOnce(s, o)
     [] p = "C15_AuthOnlyIfAuthenticated" -> C15_AuthOnlyIfAuthenticated(s, o)
     [] p = "C15_ProbeIffFailed" -> C15_ProbeIffFailed(s, o)
     [] p = "C15_ProbeBytes" -> C15_ProbeBytes(s, o)
@@ -584,7 +616,7 @@ Inv_C02 == \A c \in Conns : Failing({"C02_TargetPrefix", "C02_ClientPrefix", "C0
 Inv_C06 == \A c \in Conns : Failing({"C06_Silent", "C06_NoEarlyClose", "C06_CloseNotEarly", "C06_CloseNotLate",
                                      "C06_NormalClose"}, st[c], ob[c]) = {}
 Inv_C06Drain == \A c \in Conns : C06_DrainHolds(st[c], ob[c])
-Inv_C15 == \A c \in Conns : Failing({"C15_Language", "C15_AuthOnlyIfAuthenticated", "C15_ProbeIffFailed", "C15_ProbeBytes",
+Inv_C15 == \A c \in Conns : Failing({"C15_ReportedOnce", "C15_Language", "C15_AuthOnlyIfAuthenticated", "C15_ProbeIffFailed", "C15_ProbeBytes",
                                      "C15_Status", "C15_OkIffComplete", "C15_Counters"}, st[c], ob[c]) = {}
 \* model only: the counters are advanced by the very actions that move the bytes
 C15_CountersTrackDelivery ==
@@ -614,6 +646,7 @@ C18_NoLeak ==
   Terminal => \A c \in Conns : /\ st[c].pa \in {"none", "done"}
                                /\ st[c].tgt # "up"
                                /\ st[c].csock # "open" \/ st[c].pc = "idle"
+C18_AllReturned == Terminal => \A c \in Conns : C18_HandlerReturned(st[c], ob[c])
 C18_ServeWaits == srv = "ret" => Running = {} /\ lst = "closed"
 \* every step touches at most one connection (a failure on i leaves j untouched); closing the listener makes the
 \* kernel reset every connection that was never accepted
